@@ -758,3 +758,107 @@ def install(reg):
         return interp.native(np.unravel_index, idx, shape)
 
     M[np.unravel_index] = m_unravel
+
+
+# ------------------------------------------------------------------------------------------------
+# translation model of images (call sites of the estimators): an image is a fixed CONTENT translated by a position vector
+# ------------------------------------------------------------------------------------------------
+
+
+class TImg:
+    """Abstract image: content `cid` translated by `pos` = (row, col) real terms relative to the content's own frame.
+    Immutable (every operation returns a new value)."""
+
+    _pyvc_value = True
+
+    def __init__(self, pos, cid="content"):
+        self.pos = (S(pos[0]), S(pos[1]))
+        self.cid = cid
+
+    def __repr__(self):
+        return f"TImg({self.cid} @ {self.pos[0].t}, {self.pos[1].t})"
+
+
+def ite_value(c, a, b):
+    """if-then-else over the value kinds stored in abstract lists (2-vectors, translated images, scalars)."""
+    if isinstance(a, TImg) and isinstance(b, TImg):
+        if a.cid != b.cid:
+            raise OutOfSubset("ite over images of different content")
+        return TImg((ite(c, a.pos[0], b.pos[0]), ite(c, a.pos[1], b.pos[1])), a.cid)
+    if isinstance(a, SymArr) and isinstance(b, SymArr) and a.ndim == 1 and V._dim_lit(a.shape[0]) == V._dim_lit(b.shape[0]) is not None:
+        n = V._dim_lit(a.shape[0])
+        return V.from_list([ite(c, a.fn(z3.IntVal(i)), b.fn(z3.IntVal(i))) for i in range(n)], kind="real", pylist=False)
+    return ite(c, a, b)
+
+
+class AList:
+    """Python list of symbolic length: `n` (Int term) and `get(j)` (value at position j as a function of an Int term).
+    `append` is the functional update  get'(j) = v if j == n else get(j),  n' = n + 1  (the object is updated in place, like a list)."""
+
+    _pyvc_value = True
+
+    def __init__(self, n, get):
+        self.n = S(n)
+        self.get = get
+        self.writes = 0
+
+    def append(self, v):
+        n0, g0 = self.n, self.get
+        self.get = lambda j, _n=n0, _g=g0, _v=v: ite_value(lift(j) == lift(_n), _v, _g(j))
+        self.n = n0 + 1
+        self.writes += 1
+
+    append._sym_ok = True
+
+    def sym_len(self):
+        return self.n
+
+    def __len__(self):
+        return self.n.__index__()
+
+
+def install_translation_model(reg):
+    """scipy.ndimage.shift(img, shift=s) translates the content by +s (TRUSTED, A6; periodic and zero-filled translation agree
+    for content of compact support, which is what the call sites assume); tqdm(iterable) iterates the iterable."""
+    from scipy import ndimage as ndi
+
+    M = reg.models
+
+    def m_shift(interp, img, shift=None, *a, **kw):
+        if isinstance(img, TImg):
+            s = to_arr(shift)
+            if not (isinstance(s, SymArr) and s.ndim == 1 and V._dim_lit(s.shape[0]) == 2):
+                raise OutOfSubset("scipy.ndimage.shift of an abstract image by a non-2-vector")
+            return TImg((img.pos[0] + S(s.fn(z3.IntVal(0))), img.pos[1] + S(s.fn(z3.IntVal(1)))), img.cid)
+        if contains_sym((img, shift)):
+            raise OutOfSubset("scipy.ndimage.shift on symbolic pixel data")
+        return interp.native(ndi.shift, img, shift, *a, **kw)
+
+    M[ndi.shift] = m_shift
+    try:
+        import scipy.ndimage._interpolation as _ni
+
+        M[_ni.shift] = m_shift
+    except Exception:
+        pass
+
+    reg.noop_calls = set(reg.noop_calls) - {"tqdm"}
+
+    def m_tqdm(interp, it=None, *a, **kw):
+        return it
+
+    import tqdm as _tq
+    import tqdm.auto as _tqa
+
+    for f in {_tq.tqdm, _tqa.tqdm}:
+        M[f] = m_tqdm
+        reg.ctor_models[f] = m_tqdm
+
+    prev_len = M.get(len)
+
+    def m_len(interp, x):
+        if isinstance(x, AList):
+            return x.n
+        return prev_len(interp, x)
+
+    M[len] = m_len
